@@ -55,6 +55,10 @@ Lemma wf_unpack c : pd_wf c = true ->
 Proof.
   unfold pd_wf, pd_valid. rewrite !andb_true_iff, !N.leb_le, N.ltb_lt. tauto.
 Qed.
+Lemma wf_v6 c : pd_wf c = true -> pd_v4 c = false.
+Proof. unfold pd_wf. rewrite !andb_true_iff, negb_true_iff. tauto. Qed.
+Lemma base_v6 c : pd_v4 c = false -> pd_base c = (pd_net c / Mn c) * Mn c.
+Proof. intros H. unfold pd_base, Mn. rewrite H. reflexivity. Qed.
 
 Lemma Mn_split c : pd_wf c = true -> Mn c = pd_count c * Sh c.
 Proof.
@@ -67,16 +71,16 @@ Proof.
   intros H. apply wf_unpack in H. unfold pd_count. apply N.pow_le_mono_r; [discriminate | lia].
 Qed.
 
-Lemma base_aligned c : pd_base c mod Mn c = 0.
-Proof. unfold pd_base. fold (Mn c). apply N.mod_mul. apply pow2_nz. Qed.
+Lemma base_aligned c : pd_v4 c = false -> pd_base c mod Mn c = 0.
+Proof. intros H. rewrite (base_v6 c H). apply N.mod_mul. apply pow2_nz. Qed.
 
-Lemma base_div c : pd_base c / Mn c = pd_net c / Mn c.
-Proof. unfold pd_base. fold (Mn c). apply N.div_mul. apply pow2_nz. Qed.
+Lemma base_div c : pd_v4 c = false -> pd_base c / Mn c = pd_net c / Mn c.
+Proof. intros H. rewrite (base_v6 c H). apply N.div_mul. apply pow2_nz. Qed.
 
 Lemma base_top c : pd_wf c = true -> pd_base c + Mn c <= W128.
 Proof.
   intros H. pose proof (wf_unpack _ H) as [H1 [H2 [H3 H4]]].
-  unfold pd_base. fold (Mn c).
+  rewrite (base_v6 c (wf_v6 c H)).
   assert (E : W128 = 2 ^ pd_nbits c * Mn c).
   { unfold Mn. rewrite <- N.pow_add_r, W128_pow. f_equal. lia. }
   assert (pd_net c / Mn c < 2 ^ pd_nbits c).
@@ -156,12 +160,12 @@ Lemma pti_unfold v c ip ones bits :
 Proof. reflexivity. Qed.
 
 (* inside the network: the distance from the base is below 2^(128-nbits) *)
-Lemma inside_dist c A : inside c A = true -> pd_base c <= A /\ A - pd_base c < Mn c /\ A - pd_base c = A mod Mn c.
+Lemma inside_dist c A : pd_v4 c = false -> inside c A = true -> pd_base c <= A /\ A - pd_base c < Mn c /\ A - pd_base c = A mod Mn c.
 Proof.
-  unfold inside. rewrite N.eqb_eq. intros E.
+  intros V6. unfold inside. rewrite N.eqb_eq. intros E.
   pose proof (N.div_mod A (Mn c) (pow2_nz _)) as HA.
   pose proof (N.div_mod (pd_base c) (Mn c) (pow2_nz _)) as HB.
-  rewrite base_aligned, N.add_0_r in HB.
+  rewrite (base_aligned c V6), N.add_0_r in HB.
   pose proof (N.mod_lt A (Mn c) (pow2_nz _)) as HL.
   rewrite E in HA. rewrite <- HB in HA. lia.
 Qed.
@@ -223,12 +227,12 @@ Proof.
   assert (HP : P < W128) by (unfold P; lia).
   assert (Hin : P / Mn c = pd_base c / Mn c).
   { unfold P. rewrite (N.div_mod (pd_base c) (Mn c)) at 1 by apply pow2_nz.
-    rewrite base_aligned, N.add_0_r, N.mul_comm, N.div_add_l by apply pow2_nz.
+    rewrite (base_aligned c (wf_v6 c H)), N.add_0_r, N.mul_comm, N.div_add_l by apply pow2_nz.
     rewrite (N.div_small _ _ HiS). apply N.add_0_r. }
   assert (Hal : P mod Sh c = 0).
   { unfold P. rewrite N.mod_add by apply pow2_nz.
     rewrite (N.div_mod (pd_base c) (Mn c)) by apply pow2_nz.
-    rewrite base_aligned, N.add_0_r, HM, (N.mul_comm (pd_count c)), <- N.mul_assoc, N.mul_comm.
+    rewrite (base_aligned c (wf_v6 c H)), N.add_0_r, HM, (N.mul_comm (pd_count c)), <- N.mul_assoc, N.mul_comm.
     apply N.mod_mul, pow2_nz. }
   split; [|auto].
   rewrite pti_unfold. rewrite !N.eqb_refl. simpl negb. simpl orb.
@@ -266,7 +270,7 @@ Proof.
   destruct (inside c (as16 a)) eqn:Hins; [|discriminate]. simpl in Hp.
   destruct (N.leb_spec (pd_count c) (pti_idx c (as16 a))) as [Hc|Hc]; [discriminate|].
   inversion Hp; subst i; clear Hp.
-  destruct (inside_dist _ _ Hins) as [HB [HD HE]].
+  destruct (inside_dist _ _ (wf_v6 c H) Hins) as [HB [HD HE]].
   split; [exact Hc|]. split; [|unfold inside in Hins; apply N.eqb_eq in Hins; exact Hins].
   rewrite itp_spec by assumption.
   rewrite pti_spec by assumption.
@@ -275,7 +279,7 @@ Proof.
   pose proof (Mn_split _ H) as HM.
   assert (HBS : pd_base c = (pd_base c / Mn c * pd_count c) * Sh c).
   { rewrite (N.div_mod (pd_base c) (Mn c)) at 1 by apply pow2_nz.
-    rewrite base_aligned, N.add_0_r, HM. lia. }
+    rewrite (base_aligned c (wf_v6 c H)), N.add_0_r, HM. lia. }
   assert (EA : A = pd_base c + D) by (unfold D; lia).
   rewrite EA at 1. rewrite HBS at 1. rewrite N.div_add_l by apply pow2_nz.
   rewrite N.mul_add_distr_r, <- HBS. reflexivity.
